@@ -2170,6 +2170,11 @@ def pre_gate(chk: Check) -> None:
         py2lean_flatten.write_if_changed(py2lean_flatten.translate(common.REPO)[0], common.LEAN_DIR / "Gen/FlattenGen.lean")
     except py2lean_flatten.Unsupported:
         pass                                                # reported by the second gate below
+    import py2lean_rollout
+    try:
+        py2lean_rollout.write_if_changed(py2lean_rollout.translate(common.REPO)[0], common.LEAN_DIR / "Gen/RolloutGen.lean")
+    except py2lean_rollout.Unsupported:
+        pass                                                # reported by the third gate below
     common.translation_gate(chk, py2lean_gae, "Gen/GAEGen.lean", ["Gen.GAEGen", "Proofs.GAEGenEq", "Props.C17"],
                             "advantage-estimation loop of PPO.learn and IPPO._learn_individual")
     # the tensor re-layout between the rollout lists and the minibatch loop, executed symbolically
@@ -2177,6 +2182,11 @@ def pre_gate(chk: Check) -> None:
                             ["Gen.FlattenGen", "Proofs.FlattenGenEq", "Props.C17"],
                             "stack / flatten / concatenate / get_experiences_samples re-layout of PPO.learn and "
                             "IPPO._learn_individual: row index maps")
+    # what learn() RECEIVES: the rollout-collection block of the two training functions (dones[t] = flag before step t)
+    common.translation_gate(chk, py2lean_rollout, "Gen/RolloutGen.lean",
+                            ["Gen.RolloutGen", "Proofs.RolloutGenEq", "Props.C17"],
+                            "rollout-collection block (step loop up to learn(experiences)) of train_on_policy and "
+                            "train_multi_agent_on_policy")
 
 
 # ----------------------------------------------------------------------------- self-test (seeded faults)
